@@ -711,7 +711,40 @@ impl WorldGen {
             return;
         }
         let who = if self.r.chance(85) { admin.to_string() } else { self.user() };
-        match self.r.below(12) {
+        match self.r.below(14) {
+            12 | 13 => {
+                // several sections in one UpdateConfig (each present with probability 1/2): every supplied one must apply
+                let n = &v.cfg.native_chain_config;
+                let nat = if self.r.chance(50) {
+                    format!(
+                        "({};{};{};{};{};{};{})",
+                        hs(&n.account_address_prefix),
+                        hs(&n.validator_address_prefix),
+                        hs(&n.token_denom),
+                        s_list(&n.validators, |a| hs(a.as_str())),
+                        *self.r.pick(&[120u64, 7200, 9000]),
+                        hs(n.staker_address.as_str()),
+                        hs(n.reward_collector_address.as_str())
+                    )
+                } else {
+                    "-".to_string()
+                };
+                let pro = if self.r.chance(50) {
+                    let o = if self.r.chance(50) { hs(&addr(CHAIN_PREFIX, "oracle", 32)) } else { "-".to_string() };
+                    format!("({};{};{};{};{})", hs(CHAIN_PREFIX), hs(D), hs(&self.s.channel), *self.r.pick(&[1u128, 10, 100]), o)
+                } else {
+                    "-".to_string()
+                };
+                let fee = if self.r.chance(50) {
+                    let t = if self.r.chance(50) { hs(&addr(CHAIN_PREFIX, "treasury2", 32)) } else { "-".to_string() };
+                    format!("({};{})", *self.r.pick(&[0u128, 5000, 10_000, 100_000]), t)
+                } else {
+                    "-".to_string()
+                };
+                let mon = if self.r.chance(60) { s_list(&monitor_set(&mut self.r), |m| hs(m)) } else { "-".to_string() };
+                let bp = if self.r.chance(50) { self.r.pick(&[30u64, 60, 3600]).to_string() } else { "-".to_string() };
+                self.w.exec(None, &who, vec![], &format!("updcfg {} {} {} {} {}", nat, pro, fee, mon, bp));
+            }
             0 => {
                 let who = if self.r.chance(50) && !v.cfg.monitors.is_empty() {
                     v.cfg.monitors[self.r.below(v.cfg.monitors.len() as u64) as usize].to_string()
@@ -1011,6 +1044,21 @@ impl WorldGen {
         }
         let ch = self.s.channel.clone();
         self.w.hook(&staker, &ch, CHAIN_PREFIX, D, D, short, &format!("unstaked {}", sb.id));
+        self.w.tick(1_000_000_000);
+        // while the contract holds the batch's funds: a stake minted to the staker's own address (one transfer of the
+        // staked asset and one of the LST, both to the staker), both refunded, then the recoveries that would have to fuse
+        // two denoms -- with spare balance in the contract a wrongly fused re-send would go through
+        let amt = 5_000u128.max(self.s.min) + self.r.u128_upto(5_000);
+        self.w.exec(Some(10), &a, vec![Coin::new(amt, D)], &format!("stake {} - -", hs(&staker)));
+        let flying: Vec<u64> = self.w.chain.packets.values().filter(|p| p.state == crate::world::PState::Flight).map(|p| p.seq).collect();
+        for q in flying {
+            let o = if self.r.chance(50) { "err" } else { "timeout" };
+            self.w.tick(1_000_000_000);
+            self.w.relay(q, o);
+        }
+        self.w.tick(1_000_000_000);
+        self.w.exec(Some(11), &b, vec![], "recover - - -");
+        self.w.exec(Some(12), &b, vec![], &format!("recover 1 - {}", hs(&staker)));
         self.w.tick(1_000_000_000);
         self.w.exec(Some(6), &b, vec![], &format!("withdraw {}", sb.id));
         self.w.exec(Some(7), &b, vec![], &format!("withdraw {}", sb.id));
